@@ -201,7 +201,8 @@ void rewrite_loop_in_place(Chunk *keyword, E_Token desired_type, const char *des
 
 static Chunk *find_start_brace(Chunk *pc)
 {
-   while (!pc->IsBraceOpen())
+   while (  pc->IsNotNullChunk()
+         && !pc->IsBraceOpen())
    {
       pc = pc->GetNextNcNnl();
    }
@@ -299,6 +300,13 @@ void rewrite_infinite_loops()
       {
          Chunk *start_brace = find_start_brace(pc);
          Chunk *end_brace   = start_brace->GetClosingParen();
+
+         if (  start_brace->IsNullChunk()
+            || end_brace->IsNullChunk())
+         {
+            // the file ends inside the loop header or body
+            continue;
+         }
 
          if (desired_type == CT_WHILE_OF_DO)
          {
